@@ -35,6 +35,18 @@ def _patterns(rng, alg, cfg):
         # results with more than 16 stored blades (the even subalgebra applied to all vectors and bivectors): whatever the
         # code generator does per block of outputs is exercised on every run, not only when a random pattern is dense enough
         cases.append((tuple(alg.indices_for_grades[tuple(range(0, alg.d + 1, 2))]), tuple(alg.indices_for_grades[(1, 2)])))
+    if cfg.get('high_grades'):
+        # homogeneous operands of the top grades (d, d-1, d-2: reversion signs of grades beyond 3, i.e. grade % 4, not grade) against
+        # small low-grade operands, either way round
+        d = alg.d
+        for g in (d, d - 1, d - 2):
+            top = list(alg.indices_for_grades[(g,)])
+            if len(top) > 4:
+                top = sorted(rng.sample(top, 4), key=top.index)
+            low = tuple(rng.sample(list(alg.indices_for_grades[(1,)]), 2)) + (rng.choice(list(alg.indices_for_grades[(2,)])),)
+            cases.append((low, tuple(top)))
+            cases.append((tuple(top), low))
+            cases.append((tuple(top), tuple(top)))
     for _ in range(cfg.get('random', 0)):
         cases.append((rand_keys(rng, alg), rand_keys(rng, alg)))
     return cases
@@ -498,6 +510,31 @@ def job_options(job):
                 # plain python ints beyond 2**32: exact in python, silently wrapping in any fixed-width container
                 av = [rng.choice([1, -1]) * rng.randint(2 ** 33, 2 ** 40) for _ in ak]
                 bv = [rng.choice([1, -1]) * rng.randint(2 ** 33, 2 ** 40) for _ in bk]
+            if base.get('blade_built'):
+                # operands written with the algebra's named blades (sum of coefficient * alg.blades[name]): the element denoted by a
+                # blade name may not depend on an option either (graded mode builds its blades by a route of its own)
+                for what_, expr_ in (('the element written as a sum of coefficient * alg.blades[name]', lambda bl: bl(ak, av)),
+                                     ('a*b + a with a, b written as sums of coefficient * alg.blades[name]', lambda bl: bl(ak, av) * bl(bk, bv) + bl(ak, av))):
+                    base_res = None
+                    for v, alg in algs:
+                        out['evaluations'] += 1
+                        def built(keys, vals, alg=alg):
+                            acc = None
+                            for k_, c_ in zip(keys, vals):
+                                t_ = c_ * alg.blades[alg.bin2canon[k_]]
+                                acc = t_ if acc is None else acc + t_
+                            return acc
+                        r = _safe(lambda: expr_(built))
+                        val = ('value', O.nz(fr.mv_to_ref(r[1]))) if r[0] == 'value' else r
+                        if base_res is None:
+                            base_res = val
+                            continue
+                        same = val[0] == base_res[0] and (val[0] == 'raise' and val[1].split(':')[0] == base_res[1].split(':')[0] or val[0] == 'value' and _eqtol(val[1], base_res[1]))
+                        if not same:
+                            percat[('blade-built', what_)] = percat.get(('blade-built', what_), 0) + 1
+                            if percat[('blade-built', what_)] <= 3:
+                                out['failures'].append({'config': v, 'op': what_, 'a': showmv(ak, av), 'b': showmv(bk, bv),
+                                                        'what': 'result differs from the default options (blade-built operands)', 'got': str(val)[:200], 'expected': str(base_res)[:200]})
             for name in (base.get('ops') or job['ops']):
                 binary = name in BINARY + ['div']
                 ak_, av_ = ak, av
